@@ -632,6 +632,22 @@ pub fn quiet_panics() {
     std::panic::set_hook(Box::new(|_| {}));
 }
 
+/// For child processes: one short line per panic on stderr (the parent keeps the tail, so the
+/// message of an uncaught panic that kills the child is available for the crash report).
+pub fn brief_panics() {
+    std::panic::set_hook(Box::new(|info| {
+        let msg = if let Some(s) = info.payload().downcast_ref::<&'static str>() {
+            (*s).to_owned()
+        } else if let Some(s) = info.payload().downcast_ref::<String>() {
+            s.clone()
+        } else {
+            "<payload>".to_owned()
+        };
+        let loc = info.location().map(|l| format!("{}:{}", l.file(), l.line())).unwrap_or_default();
+        eprintln!("panic: {} at {}", msg.chars().take(200).collect::<String>(), loc);
+    }));
+}
+
 pub fn panic_message(p: &(dyn std::any::Any + Send)) -> String {
     if let Some(s) = p.downcast_ref::<&'static str>() {
         (*s).to_owned()
